@@ -144,8 +144,16 @@ def applyEdit (m : AbstractModel) : AEdit → Option AbstractModel
     let n := bases.length
     -- shape values are u16 and count from the mesh's start index: an edit whose indices do not
     -- fit is not expressible in the format (the code panics on the overflow / would wrap)
+    -- … and "the mesh's start index" must mean something: its first sub-mesh's offset (what
+    -- `update_headers` takes as `start_index`) has to be the mesh's position in the index section.
+    -- Between the `replace_vertices` calls of one re-layout it is not (the code then records the
+    -- stale value, `corpus/C07/sp-add-shape-noncontiguous.case`): such a history is not supplied
+    -- consistently
     if (meshStart l part) + mesh.vertexCount.toNat + n > 65536 ||
-       bases.any (fun b => (meshStart l part) + b.toNat ≥ 65536) then none else
+       bases.any (fun b => (meshStart l part) + b.toNat ≥ 65536) ||
+       (match mesh.submeshes with
+        | s :: _ => s.indexOffset != start
+        | [] => true) then none else
     let sh' := { sh with
       shapeMeshStartIndex :=
         if smi == 0 then sh.shapeMeshStartIndex.set lod m.shapeMeshes.length.toUInt16
